@@ -39,7 +39,7 @@ int KillMemoryGrowth<Base>::init(
       "growing_size_percentile",
       growing_size_percentile_,
       [&](const std::string& s) {
-        int v = std::stoi(s);
+        int v = PluginArgParser::parseUnsignedInt(s);
         if (v < 0 || v >= 100) {
           throw std::invalid_argument(
               "growing_size_percentile must be in range [0, 100)");
@@ -47,8 +47,15 @@ int KillMemoryGrowth<Base>::init(
         return v;
       });
 
+  // a ratio: fractional values such as 1.25 are meaningful
   this->argParser_.addArgumentCustom(
-      "min_growth_ratio", min_growth_ratio_, PluginArgParser::parseUnsignedInt);
+      "min_growth_ratio", min_growth_ratio_, [](const std::string& s) {
+        float v = PluginArgParser::parseValue<float>(s);
+        if (!(v >= 0)) {
+          throw std::invalid_argument("min_growth_ratio must be non-negative");
+        }
+        return v;
+      });
 
   return Base::init(args, context);
 }
